@@ -12,7 +12,7 @@ use std::io::Write;
 use std::panic::{catch_unwind, AssertUnwindSafe};
 use std::time::{Duration, Instant};
 
-use cat_c11::{chain_index, n_chain_decls, with_chain, ChainT, ChainVisitor, CHAIN_DECLS};
+use cat_c11::{chain_index, chain_names, n_chain_decls, with_chain, ChainT, ChainVisitor};
 use serde::{Deserialize, Serialize};
 use serde_json::{json, Map, Value};
 use simcore::codec::{self, Api, Format};
@@ -747,7 +747,7 @@ fn run_check(cfg: &Config) -> i32 {
         report::harness_error(&format!("reach probes stuck at zero: {stuck:?}"));
     }
     let mut extra = Map::new();
-    extra.insert("declarations".into(), json!(CHAIN_DECLS));
+    extra.insert("declarations".into(), json!(chain_names()));
     extra.insert("determinism_probe".into(), json!({"runs": 2048, "worker_counts": [3, cfg.workers.max(2)], "event_logs_identical": true}));
     extra.insert("chains".into(), json!(n));
     report::write_evidence(
